@@ -15,6 +15,19 @@ CHECKS = {
                 "exercise it. Stack sufficiency for 33 nested calls is measured, not proved. 64-bit target assumed.",
         "technique": "Coq proof over executable model + differential correspondence (vm_compute vs Rust harness)",
     },
+    "C08": {
+        "text": "Machine-checked proof (Coq 8.16) that every writable frame (simple strings/errors without CR/LF, every i64, "
+                "arbitrary bulk strings, null, arrays of those) is encoded by the model of write_frame and decoded back to the "
+                "same frame by the models of Frame::check, Frame::parse and Connection::parse_frame, whatever bytes follow; "
+                "the chunking clauses (every strict prefix incomplete, any segmentation, truncated stream = reset) are stated "
+                "but not yet proved and are decided by deterministic differential execution of the real Connection over a "
+                "scripted in-memory stream (whole / bytewise / random cuts / inside each CRLF / cut short), compared with the "
+                "model and with an independent oracle.",
+        "design_ref": "DESIGN.md section 8, C08",
+        "note": "Proof covers the round-trip clause; chunking clauses are differential only (core/stretch split, DESIGN.md section 10). "
+                "Theorems are about the model coq/Resp/{Frame,Conn}.v.",
+        "technique": "Coq proof (round trip) over executable model + differential correspondence on scripted streams",
+    },
 }
 
 NOT_YET = "not claimed yet: model/theorems for this property are not built in this revision (planned, DESIGN.md section 8)"
